@@ -46,7 +46,18 @@ def warm():
     RULES = []
     for r in vsg.rule_list.load_rules():
         try:
-            RULES.append((r.unique_id, int(r.phase), int(r.subphase), bool(r.disable), bool(r.fixable), getattr(getattr(r, "severity", None), "name", None), tuple(str(x) for x in getattr(r, "configuration", []) or [])))
+            RULES.append(
+                (
+                    r.unique_id,
+                    int(r.phase),
+                    int(r.subphase),
+                    bool(r.disable),
+                    bool(r.fixable),
+                    getattr(getattr(r, "severity", None), "name", None),
+                    tuple(str(x) for x in getattr(r, "configuration", []) or []),
+                    tuple(c.__name__ for c in type(r).__mro__[1:] if c.__module__.startswith("vsg.rules") and not c.__name__.startswith("rule_")),
+                )
+            )
         except Exception:
             pass
     RULES.sort()
